@@ -618,6 +618,9 @@ structure Api where
   schema : List Name
   /-- keys of `api.route_schema._fields_by_name` -/
   schemaByName : List Name
+  /-- names of the fields `stone_cfg.Route` inherits (`all_fields` minus `fields`); `cli.main` never
+  looks at them, routes carry values for them -/
+  schemaInherited : List Name := []
   deriving DecidableEq, Repr
 
 structure Opts where
@@ -714,7 +717,8 @@ def stageAttrs (a : List Name) (api : Api) : Except CliError Api :=
   if left ≠ [] then .error (.attributeUndefined left) else
   .ok { namespaces := api.namespaces.map (Namespace.restrict attrs)
         schema := api.schema.filter (fun n => n ∈ attrs)
-        schemaByName := api.schemaByName.filter (fun n => n ∈ attrs) }
+        schemaByName := api.schemaByName.filter (fun n => n ∈ attrs)
+        schemaInherited := api.schemaInherited }
 
 /-- The `Api` handed to the backend, or the error `main` exits with. The filter is parsed before
 the specs are compiled, the other blocks run in the order of the source. -/
@@ -765,6 +769,15 @@ def pruneSpec (o : Opts) (f : Option Expr) (api : Api) : Api :=
   let keep := wantedAttrs o.attributes api.schema
   { namespaces := api.namespaces.map (Namespace.pruned o f keep)
     schema := api.schema.filter (fun n => n ∈ keep)
-    schemaByName := api.schemaByName.filter (fun n => n ∈ keep) }
+    schemaByName := api.schemaByName.filter (fun n => n ∈ keep)
+    schemaInherited := api.schemaInherited }
+
+/-- every attribute a route can carry: the fields of `stone_cfg.Route`, inherited ones included
+(`route_schema.all_fields`) -/
+def Api.allFields (api : Api) : List Name := api.schemaInherited ++ api.schema
+
+/-- the selection the property speaks of: the names given with `-a`, all attributes with `:all` -/
+def wantedAll (a : List Name) (api : Api) : List Name :=
+  if a = [] then [] else if allAttributes ∈ a then api.allFields else a
 
 end StoneVerif.Cli
